@@ -33,12 +33,23 @@ ASSUMPTIONS = ["Python integers, hashlib SHA-256 and the affine curve model (ver
                "(ECDSA, RSA) or the verifier's own range check defines the range"]
 
 
+def prep(ctx, key, desc=None, **kw):
+    """ctx.begin() for a preparatory case (key generation, scheme set-up, the honest signature that hostile cases
+    start from).  When `vf replay` selects one other key, the preparation still has to run (unjournaled)."""
+    if ctx.begin(key, desc, **kw):
+        return True
+    if ctx.only is not None and key != ctx.only and key not in ctx.skip:
+        ctx.cur_key, ctx.cur_desc = key, desc
+        return True
+    return False
+
+
 def parts(tier):
     q = tier == "quick"
     ps = [dict(part="ecdsa", cfg="asan256", shards=3 if q else 6),
-          dict(part="ec", cfg="asan256", shards=5 if q else 8),
+          dict(part="ec", cfg="asan256", shards=6 if q else 8),
           dict(part="rsa", cfg="asan256", shards=2 if q else 4),
-          dict(part="pairing", cfg="asan256", shards=6 if q else 8)]
+          dict(part="pairing", cfg="asan256", shards=5 if q else 8)]
     if not q:
         ps += [dict(part="rsa", cfg="rsa-pkcs1", shards=4), dict(part="rsa", cfg="rsa-basic", shards=4)]
     return ps
@@ -186,13 +197,15 @@ class EcDsa(Base):
             return (Q[0], (Q[1] + 1) % p)
 
         def case(fn, cls, mode, desc):
+            if fn.endswith("_sig") and desc and str(desc[-1]).endswith("-base"):
+                return prep(ctx, "%s|%s,%s" % (fn, cls, mode), desc)
             return ctx.begin("%s|%s,%s" % (fn, cls, mode), desc)
 
         # ---------------- key generation is consistent with the model
         keys = []
         for fn in ("cp_ecdsa_gen", "cp_ecss_gen"):
             for _ in range(2):
-                if not ctx.begin("%s|keypair" % fn, [cname]):
+                if not prep(ctx, "%s|keypair" % fn, [cname]):
                     continue
                 try:
                     k = self.keygen(fn)
@@ -656,7 +669,8 @@ class Scheme(Base):
         """sign msg and require acceptance by the library and (on a sample) by the equation"""
         ctx = self.ctx
         L = len(msg) if isinstance(msg, (bytes, bytearray)) else None
-        if not ctx.begin("%s|%s" % (self.sigfn, what), [cname, L if L is not None else hx(msg)]):
+        key, desc = "%s|%s" % (self.sigfn, what), [cname, L if L is not None else hx(msg)]
+        if not (prep(ctx, key, desc) if what == "mutation-base" else ctx.begin(key, desc)):
             return False
         ok = False
         try:
@@ -701,23 +715,6 @@ class EcScheme(Scheme):
 
 class Vbnn(EcScheme):
     name, sigfn, verfn = "vbnn", "cp_vbnn_sig", "cp_vbnn_ver"
-    # R = identity makes cp_vbnn_ver overrun its stack buffer on the unchanged tree: one directed case only
-    directed_only = (("R", "identity"),)
-
-    def directed_identity(self, cname):
-        ctx, R = self.ctx, self.R
-        if not ctx.begin("cp_vbnn_ver|R:identity", [cname, "directed"]):
-            return
-        try:
-            if self.setup() and self.sign(b"abc"):
-                R.pt_put(self.r, None)
-                ctx.cur_desc = [cname, self.describe()]
-                lv = self.verdict(self.ver())
-                self.judge(lv, self.eqn(), {"lib": lv})
-        except MonitorViolation as e:
-            ctx.fail(ctx.cur_key + "|" + e.kind, e.detail)
-        finally:
-            ctx.end()
 
     def setup(self):
         R = self.R
@@ -1174,10 +1171,6 @@ def run_ec(ctx):
     ctx.note("curves", [nm for nm, _ in ids])
     q = ctx.quick
     di = 0
-    if ctx.shard == 0 and ids:
-        # directed cases that are fatal on some trees run first (a restart repeats the shard from its start)
-        R.set_curve(ids[0][1])
-        Vbnn(ctx, R).directed_identity(ids[0][0])
     for ci, (nm, cid) in enumerate(ids):
         R.set_curve(cid)
         schemes = [Vbnn(ctx, R), PokDl(ctx, R), SokDl(ctx, R), PokOr(ctx, R),
@@ -1188,7 +1181,7 @@ def run_ec(ctx):
         for si, sch in enumerate(schemes):
             di += 1
             sch.di = di * 1000
-            if not ctx.begin("%s|setup" % sch.sigfn, [nm, sch.name]):
+            if not prep(ctx, "%s|setup" % sch.sigfn, [nm, sch.name]):
                 continue
             try:
                 ok = sch.setup()
@@ -1207,6 +1200,8 @@ def run_ec(ctx):
                 stride = 7 if heavy else (5 if sch.name.startswith("sokor-") else 1)
                 if isinstance(sch, Etrs):
                     stride = 23
+                if q and stride == 1 and (ci + si) % 6:
+                    stride = 4          # every length on one curve per scheme, every fourth on the other five
                 for L in range(ci % stride, 301, stride):
                     if sch.mine():
                         sch.honest(nm, sch.rbytes(L), eq_rate=0.1)
@@ -1218,6 +1213,8 @@ def run_ec(ctx):
                 continue
             if q and isinstance(sch, Etrs) and (ci + si) % 3:
                 continue
+            if q and (sch.name.startswith("sokor-") or (heavy and getattr(sch, "size", 1) > 1)) and (ci + si) % 2:
+                continue        # variants of one verifier: three of the six curves each, same classes
             if not sch.honest(nm, sch.rbytes(rng.choice([1, 5, 20])) if sch.msg_kind == "bytes" else b"", "mutation-base"):
                 continue
             full = ()
@@ -1313,7 +1310,7 @@ class Rsa(Base):
 
     def keygen(self, bits):
         ctx, R = self.ctx, self.R
-        if not ctx.begin("cp_rsa_gen|bits=%d" % bits, [bits], budget=300):
+        if not prep(ctx, "cp_rsa_gen|bits=%d" % bits, [bits], budget=300):
             return None
         try:
             pub, prv = R.rsa_new(), R.rsa_new()
@@ -1397,7 +1394,7 @@ class Rsa(Base):
             kind = rng.choice(["rand", "zero", "ff"])
             msg = {"rand": self.rbytes(L), "zero": bytes(L), "ff": b"\xff" * L}[kind]
             mode = "prehashed" if pre else "hashed"
-            if not ctx.begin("cp_rsa_sig|honest,%s,%s" % (mode, kc), [key["bits"], L, kind]):
+            if not prep(ctx, "cp_rsa_sig|honest,%s,%s" % (mode, kc), [key["bits"], L, kind]):
                 continue
             try:
                 sg = self.lib_sig(msg, pre, key)
@@ -1417,7 +1414,7 @@ class Rsa(Base):
             pre = rng.random() < 0.4
             msg = self.rbytes(32) if pre else self.rbytes(rng.choice([0, 1, 20, 64, 200]))
             mode = "prehashed" if pre else "hashed"
-            if not ctx.begin("cp_rsa_sig|honest,%s,%s" % (mode, kc), [key["bits"], len(msg), "hostile-base"]):
+            if not prep(ctx, "cp_rsa_sig|honest,%s,%s" % (mode, kc), [key["bits"], len(msg), "hostile-base"]):
                 continue
             try:
                 sg = self.lib_sig(msg, pre, key)
@@ -2359,7 +2356,7 @@ def run_pairing(ctx):
         for si, sch in enumerate(schemes):
             di += 1
             sch.di = di * 1000
-            if not ctx.begin("%s|setup" % sch.sigfn.replace("_sig", "_gen"), [nm, sch.name]):
+            if not prep(ctx, "%s|setup" % sch.sigfn.replace("_sig", "_gen"), [nm, sch.name]):
                 continue
             try:
                 ok = sch.setup()
@@ -2377,6 +2374,8 @@ def run_pairing(ctx):
             if sch.msg_kind == "bytes":
                 heavy = sch.name in ("cli", "clb")
                 stride = 5 if heavy else 1
+                if q and stride == 1 and (ci + si) % 2:
+                    stride = 3          # every length on one of the two curves, every third on the other
                 for L in range(ci % stride, sch.maxlen + 1, stride):
                     if sch.mine():
                         sch.pre = 0
@@ -2407,7 +2406,12 @@ def run_pairing(ctx):
                 full = ()
                 if sch.name in ("bls", "bbs", "zss", "pss", "cls") or not q:
                     full = set(c.name for c in sch.comps() if c.kind in ("bn", "bytes"))
-                sch.mutate(nm, full_names=full, sample=0.03)
+                only = None
+                if q and ci % 2 and len(sch.comps()) > 8:
+                    # many-component schemes: every second component on the second curve (same classes as on the first)
+                    names = [c.name for c in sch.comps()]
+                    only = lambda c, names=names: names.index(c.name) % 2 == ctx.seed % 2
+                sch.mutate(nm, full_names=full, sample=0.03, only=only)
             sch.pre = 0
             ctx.add("seconds_mutation:" + sch.name, round(time.time() - t0, 1))
             sch.finish()
